@@ -282,13 +282,11 @@ Definition append_options (opts : list (N * bytes)) (order : list N) : list (N *
 
 Definition lease_time_opt : N * bytes := (51, ipb (Z.to_N lease_secs)).
 
-(* ProcessPacket: destination of the reply.  The code tests
-   frame.SrcAddr.IP == IPv4zero || dhcpFrame.Broadcast(), but by then the reply has
-   been encoded INTO the request buffer (EncodeDHCP4(p, ...) does SetFlags(0)), so
-   dhcpFrame.Broadcast() reads the reply's flags: always false.  The client's
-   broadcast flag [m_bflag] therefore never influences the destination. *)
+(* ProcessPacket: destination of the reply: broadcast when the frame had no IP source or the
+   client set the broadcast flag (read before the reply is encoded into the request buffer,
+   fix c6ea1f8; before, the flag was read from the reply and was always 0). *)
 Definition reply_dst (m : dmsg) : mac * ip :=
-  if (m_src m =? 0) || false then (mac_bcast, ip_bcast) else (m_chaddr m, m_src m).
+  if (m_src m =? 0) || m_bflag m then (mac_bcast, ip_bcast) else (m_chaddr m, m_src m).
 
 Definition mk_reply (c : cfg) (t : rtype) (m : dmsg) (yi : ip) (b : bool) : reply :=
   let tcode := match t with ROffer => 2 | RAck => 5 | RNak => 6 end in
@@ -425,6 +423,7 @@ Definition handleRequest (c : cfg) (now : Z) (s : dstate) (m : dmsg) : dstate * 
   let captured := sess_captured (ss s) (m_chaddr m) in
   let '(s1, l) := findOrCreate c s k (m_chaddr m) in
   let tk := taken s1 l req in     (* before the session learns req from this request *)
+  let expired := lstate_eqb (l_state l) SAllocated && (l_exp l <? now)%Z in   (* fix 8b460ec *)
   let nak := Some (mk_reply c RNak m 0 captured) in
   let ack := do_ack c now m in
   match oper with
@@ -434,7 +433,7 @@ Definition handleRequest (c : cfg) (now : Z) (s : dstate) (m : dmsg) : dstate * 
         let s2 := put s1 l' in
         if attack_mode c captured then (s2, nak)
         else (set_ss s2 (dhcp_update (ss s2) (m_chaddr m) (Some req)), None)
-      else if lstate_eqb (l_state l) SFree || tk || negb (l_mac l =? m_chaddr m)
+      else if lstate_eqb (l_state l) SFree || tk || expired || negb (l_mac l =? m_chaddr m)
               || (lstate_eqb (l_state l) SDiscover
                   && (negb (oeqb (l_xid l) (Some (m_xid m))) || negb (oeqb (l_offer l) (Some req))))
               || (lstate_eqb (l_state l) SAllocated && negb (oeqb (l_ip l) (Some req)))
@@ -448,7 +447,7 @@ Definition handleRequest (c : cfg) (now : Z) (s : dstate) (m : dmsg) : dstate * 
   | Rebooting | Rebinding =>
       let s2 := set_ss s1 (dhcp_update (ss s1) (m_chaddr m) (Some req)) in
       if lstate_eqb (l_state l) SFree && attack_mode c captured then (s2, nak)
-      else if negb (lstate_eqb (l_state l) SAllocated) || tk || negb (oeqb (l_ip l) (Some req))
+      else if negb (lstate_eqb (l_state l) SAllocated) || tk || expired || negb (oeqb (l_ip l) (Some req))
               || negb (l_mac l =? m_chaddr m)
               || negb (match l_ip l with Some x => n_contains c captured x | None => false end)
       then (s2, nak)
